@@ -20,6 +20,7 @@ MUTANTS = [
     ('pyworkers/pool.py', "                self._pending += 1\n                self._pending_per_worker[worker.id].append(data)", "                self._pending += 1\n                self._pending_per_worker[worker.id].insert(0, data)", 'pending inputs recorded in reverse order'),
     ('pyworkers/pool.py', "                if return_results:\n                    ret.append(result)", "                if return_results and result is not None:\n                    ret.append(result)", 'None results are not collected'),
     ('pyworkers/pool.py', "                    elif worker.id not in self._closed:", "                    elif worker.id in self._closed:", 'results of live workers ignored'),
+    ('pyworkers/pool.py', "                    if idle.id not in self._closed and not self._pending_per_worker[idle.id]:\n", "                    if False:\n", 'retry loop spins again when the user enqueue function refuses the retried input'),
 ]
 
 
